@@ -251,6 +251,16 @@ def run_shard(shard, acc):
                             'C': C, 'val': val, 'sigkey': '%s>%s>%s' % (ka, kb, kc)}, A != B)
             ch = T.ref_children(v, ref)
             if not ch:
+                bdt = ref[2]
+                if bdt and bdt != 'varies' and T.is_base(v, bdt):
+                    # a base-datatype field has one component, named after the datatype, also reachable as <field>_1
+                    csp = [(x, 'name') for x in case_variants(bdt, rnd) if spell_ok(Field, x)] + \
+                          [(x, 'path') for x in case_variants('%s_1' % fname, rnd)]
+                    (A, ka), (B, kb), (C, kc) = rnd.choice(csp), rnd.choice(csp), rnd.choice(csp)
+                    if A == B:
+                        B, kb = rnd.choice(csp)
+                    _emit(acc, {'kind': 'triple', 'level': 'component', 'v': v, 's': s, 'fname': fname, 'i': i, 'cname': bdt,
+                                'j': 1, 'A': A, 'B': B, 'C': C, 'val': val, 'sigkey': 'basefield:%s>%s>%s' % (ka, kb, kc)}, A != B)
                 continue
             clongs = admissible_longnames(ch, Field)
             picks = ch if thorough else rnd.sample(list(ch), min(2, len(ch)))
